@@ -141,6 +141,8 @@ class EngineBase:
                     raise ContractError("%s: assumed clause %r is not proved by any view" % (key, text))
 
     def strlit(self, s):
+        if isinstance(s, bytes):
+            s = 'b:' + s.decode('latin-1')        # bytes literals: distinct constants of the same opaque sort
         if s not in self.strlits:
             self.strlits[s] = z3.Const('str!%s!%s' % (hashlib.md5(repr(s).encode()).hexdigest()[:6],
                                                      ''.join(c if c.isalnum() else '_' for c in s)[:12]),
